@@ -1,0 +1,85 @@
+//go:build verif
+
+// Contracts of package expreval for the gocv verifier (property C10).
+// Comment-only: no Go code is compiled from this file.
+//
+// Vocabulary: value(n) is an arbitrary Value of n bytes; vext(v, w) is the
+// value of v (little-endian bytes) zero-extended or truncated to w bytes, as
+// a bit-vector of 8*w bits; operators on such terms are the bit-vector
+// operators of that width: + * / (unsigned, all ones on zero divisor), shl /
+// lshr (zero when the amount is at least the bit width), nand, ult.
+
+package expreval
+
+//@ func Add
+//@   enum w in WIDTHS, n1 in VLENS, n2 in VLENS
+//@   input:val1 value(n1)
+//@   input:val2 value(n2)
+//@   ensures len(result.bs) == w
+//@   ensures vext(result, w) == vext(val1, w) + vext(val2, w)
+
+//@ func Lsh
+//@   enum w in WIDTHS, n1 in VLENS, n2 in VLENS
+//@   input:val1 value(n1)
+//@   input:val2 value(n2)
+//@   ensures len(result.bs) == w
+//@   ensures vext(result, w) == shl(vext(val1, w), vext(val2, w))
+
+//@ func Rsh
+//@   enum w in WIDTHS, n1 in VLENS, n2 in VLENS
+//@   input:val1 value(n1)
+//@   input:val2 value(n2)
+//@   ensures len(result.bs) == w
+//@   ensures vext(result, w) == lshr(vext(val1, w), vext(val2, w))
+
+//@ func Mul
+//@   enum w in WIDTHS, n1 in VLENS, n2 in VLENS
+//@   input:val1 value(n1)
+//@   input:val2 value(n2)
+//@   ensures len(result.bs) == w
+//@   ensures vext(result, w) == vext(val1, w) * vext(val2, w)
+
+//@ func Div
+//@   enum w in WIDTHS, n1 in VLENS, n2 in VLENS
+//@   input:val1 value(n1)
+//@   input:val2 value(n2)
+//@   ensures len(result.bs) == w
+//@   ensures[by-zero] vext(val2, w) == 0 ==> vext(result, w) == ones(w)
+//@   ensures[quotient] vext(val2, w) != 0 ==> vext(result, w) == vext(val1, w) / vext(val2, w)
+
+//@ func Nand
+//@   enum w in WIDTHS, n1 in VLENS, n2 in VLENS
+//@   input:val1 value(n1)
+//@   input:val2 value(n2)
+//@   ensures len(result.bs) == w
+//@   ensures vext(result, w) == nand(vext(val1, w), vext(val2, w))
+
+//@ func Ltu
+//@   enum w in WIDTHS, n1 in VLENS, n2 in VLENS
+//@   input:val1 value(n1)
+//@   input:val2 value(n2)
+//@   ensures result == ult(vext(val1, w), vext(val2, w))
+
+//@ func (Value).setWidth
+//@   enum w in WIDTHS0, n in VLENS
+//@   input:v value(n)
+//@   ensures len(result.bs) == w
+//@   ensures forall i int :: 0 <= i && i < w ==> result.bs[i] == ite(i < n, v.bs[i], 0)
+
+//@ func (Value).clone
+//@   enum n in VLENS
+//@   input:v value(n)
+//@   ensures len(result.bs) == n
+//@   ensures forall i int :: 0 <= i && i < n ==> result.bs[i] == v.bs[i]
+//@   ensures[fresh] fresh(result.bs)
+
+//@ func ParseConst
+//@   enum n in VLENS
+//@   input:e constval(n)
+//@   ensures len(result.bs) == n
+//@   ensures forall i int :: 0 <= i && i < n ==> result.bs[i] == e.bs[i]
+
+//@ func revertBytes
+//@   enum n in VLENS
+//@   input:bs bytes(n)
+//@   ensures forall i int :: 0 <= i && i < n ==> bs[i] == old(bs[n-1-i])
